@@ -1,4 +1,5 @@
 import SpecVerif.Model.C05
+import SpecVerif.Model.C05Decl
 /-!
 The line protocol shared by `Drivers/C05.lean` and `Drivers/C03.lean`: callback pools,
 parser and canonical printer (see the protocol description in `Drivers/C05.lean`).
@@ -268,9 +269,46 @@ def parseCall (ts : List String) : Option (Call × Bool) :=
       pure ({ op := .reset, inplace := f.inplace, cond := f.cond }, f.adopt)
   | _ => none
 
+/-! ### `pdecl`: the entry of one preparer / item preparer, computed by `Decl.bootstrap` from the class bodies
+
+  `pdecl <class> <attr> p|i <n> (<s|p> <-|v|a|A> <decorator id|_> <method id|_>)…`   layers root first:
+  spec / plain class; body says nothing / plain value / annotation / `Attr(...)` object; the callback registered with
+  the decorator on that object; the `_prepare_<…>` method of the body.  The entry (`prep` for `p`, `itemPrep` for `i`)
+  of `<attr>` in the table of `<class>` is REPLACED by `(Decl.bootstrap layers).entry` — which is also what the
+  generated helpers prepare with (`Res.helperPrep`, /repo a169c24).  Answers `ok`. -/
+
+def pBody (deco : Option Nat) : String → Option SpecVerif.C05.Decl.Body
+  | "-" => some .absent
+  | "v" => some .value
+  | "a" => some .annotated
+  | "A" => some (.attr deco)
+  | _ => none
+
+partial def pLayers : Nat → P (List SpecVerif.C05.Decl.Layer)
+  | 0, r => some ([], r)
+  | k+1, sp :: b :: r => do
+      let (d, r) ← pOptNat r; let (m, r) ← pOptNat r
+      let body ← pBody d b
+      let (ls, r) ← pLayers k r
+      pure ({ spec := sp == "s", body := body, method := m } :: ls, r)
+  | _, _ => none
+
+def handlePdecl (st : St) (r : List String) : St × String :=
+  match (do
+    let (c, r) ← pNat r; let (a, r) ← pNat r
+    let (which, r) ← (match r with | w :: r => some (w, r) | [] => none)
+    let (n, r) ← pNat r; let (ls, r) ← pLayers n r
+    if r.isEmpty then pure (c, a, which == "i", ls) else none) with
+  | none => (st, "bad-op")
+  | some (c, a, item, ls) =>
+    let cl := SpecVerif.C05.Decl.applyDecl st.env.classes c a item ls
+    ({ st with env := { classes := cl, prep := prepPool cl, pred := predPool } },
+     "ok")
+
 def handle (st : St) (line : String) : St × String :=
   match (line.trimAscii.toString.splitOn " ").filter (· ≠ "") with
   | ["reset"] => ({}, "ok")
+  | "pdecl" :: r => handlePdecl st r
   | "class" :: r =>
     match pClass r with
     | some (cs, []) =>
